@@ -304,11 +304,13 @@ impl Project
 pub struct Outcome
 {
 	pub assemble_ok: bool,
+	/// kind of the `SegmentError` of `close_segment` (errkind::seg_kind)
 	pub close_err: Option<String>,
 	pub finalize: bool,
-	/// (file, line, col, rendered message incl. sources)
+	/// (file, line, col, KIND of the diagnostic: errkind::diag_kind — computed from the structure of the error value, never from its text)
 	pub errors: Vec<(String, u32, u32, String)>,
-	/// what `eprintln!("Error: {err}")` of the executable prints for each diagnostic
+	/// what `eprintln!("Error: {err}")` of the executable prints for each diagnostic; only its position suffix `(file:line:col)` is
+	/// ever looked at (diagpos.rs), never the wording
 	pub printed: Vec<String>,
 	pub image: BTreeMap<u32, u8>,
 	pub segments: Vec<(u32, usize)>,
@@ -324,22 +326,14 @@ pub fn run_real(dir: &std::path::Path) -> Result<Outcome, String>
 		let directives = DirectiveList::generate();
 		let mut ctx = Context::new(&Arm6M, &directives);
 		let (res, _) = ctx.assemble(&data, path.clone());
-		let close_err = match ctx.close_segment() {Ok(..) => None, Err(e) => Some(format!("{e}"))};
+		let close_err = match ctx.close_segment() {Ok(..) => None, Err(e) => Some(crate::errkind::seg_kind(&e))};
 		let fin = if close_err.is_none() {ctx.finalize()} else {false};
 		let mut errors = Vec::new();
 		let mut printed = Vec::new();
 		for e in ctx.get_errors()
 		{
 			printed.push(format!("{e}"));
-			let mut msg = format!("{}", &e.value);
-			let mut src = std::error::Error::source(&e.value);
-			while let Some(s) = src
-			{
-				msg.push_str(" <- ");
-				msg.push_str(&format!("{s}"));
-				src = s.source();
-			}
-			errors.push((e.name.as_ref().clone(), e.line, e.col, msg));
+			errors.push((e.name.as_ref().clone(), e.line, e.col, crate::errkind::diag_kind(&e.value)));
 		}
 		let mut image = BTreeMap::new();
 		let mut segments = Vec::new();
@@ -1019,12 +1013,12 @@ fn fail_kind(o: &Outcome) -> String
 	if let Some(c) = &o.close_err {return format!("close:{c}");}
 	let Some(first) = o.errors.first() else {return "fail ?".to_owned()};
 	let m = &first.3;
-	let k = if m.contains("already occupied") {"occupied"}
-		else if m.contains("segment overflow") || m.contains("alignment too long") {"overflow"}
+	let k = if m.contains("occupied.") {"occupied"}
+		else if m.contains("overflow.") || m.contains(".write.") {"overflow"}
 		else if m.contains("duplicate") {"duplicate"}
-		else if m.contains("no such") {"undefined"}
-		else if m.contains("no active segment") {"inactive"}
-		else if m.contains("out of range") {"range"}
+		else if m.contains("nosuch") || m.contains("notfound") {"undefined"}
+		else if m.contains("inactive") {"inactive"}
+		else if m.contains("range") {"range"}
 		else {"other"};
 	format!("fail {k}")
 }
@@ -1136,195 +1130,15 @@ fn check_layout_model(cx: &mut Cx, stmts: &[St], env: &HashMap<String, i64>, pro
 // correspondence with the whole-pipeline model `Trion.Asm.run` (`asm run …`): success/failure, the three
 // results of assemble/close/finalize, every diagnostic's (file, line, col, kind) in order, and the image
 
-fn paren_nums(s: &str) -> Vec<String>
-{
-	// the integers inside the last parenthesis of a message
-	let Some(at) = s.rfind('(') else {return Vec::new()};
-	let mut out = Vec::new();
-	let mut cur = String::new();
-	let mut prev = ' ';
-	for c in s[at..].chars()
-	{
-		if c.is_ascii_digit() || (c == '-' && cur.is_empty() && !prev.is_ascii_alphanumeric()) {cur.push(c);}
-		else
-		{
-			if cur.chars().any(|c| c.is_ascii_digit()) {out.push(cur.clone());}
-			cur.clear();
-		}
-		prev = c;
-	}
-	if cur.chars().any(|c| c.is_ascii_digit()) {out.push(cur);}
-	out
-}
-
-fn hash_num(s: &str) -> i64
-{
-	// the number after '#', minus one (the messages print `idx + 1`)
-	let Some(at) = s.find('#') else {return -1};
-	s[at + 1..].chars().take_while(|c| c.is_ascii_digit()).collect::<String>().parse::<i64>().map(|n| n - 1).unwrap_or(-1)
-}
-
-fn ty_name(s: &str) -> String {s.trim().replace(' ', "_")}
-
-fn realm_of(s: &str) -> &'static str {if s.contains(" global ") {"global"} else {"local"}}
-
-fn seg_kind(parts: &[&str]) -> String
-{
-	let Some(m) = parts.first() else {return "?".to_owned()};
-	if m.starts_with("could not write segment")
-	{
-		let n = parts.get(1).map(|p| paren_nums(p)).unwrap_or_default();
-		format!("write.{}", n.join("."))
-	}
-	else if m.ends_with("is already occupied")
-	{
-		format!("occupied.{}", m.split(' ').nth(1).unwrap_or("").to_lowercase())
-	}
-	else if m.starts_with("segment overflow") {format!("overflow.{}", paren_nums(m).join("."))}
-	else {format!("?{m}")}
-}
-
-fn overflow_kind(m: &str) -> &'static str
-{
-	if m.starts_with("overflow in negative") {"negate"}
-	else if m.starts_with("cannot divide") {"divZero"}
-	else if m.starts_with("cannot modulo") {"modZero"}
-	else if m.contains(" plus ") {"add"}
-	else if m.contains(" minus ") {"sub"}
-	else if m.contains(" times ") {"mul"}
-	else if m.contains(" divided by ") {"div"}
-	else if m.contains(" modulo ") {"mod"}
-	else if m.contains(" left shifted by ") {"shl"}
-	else if m.contains(" right shifted by ") {"shr"}
-	else {"?"}
-}
-
-/// the boxed source of `Apply` / `Assemble`
-fn inner_kind(parts: &[&str]) -> String
-{
-	let Some(m) = parts.first() else {return "?".to_owned()};
-	if m.starts_with("reserved name") {"const.reserved".to_owned()}
-	else if m.starts_with("no such file ") {"include.nosuchfile".to_owned()}
-	else if m.starts_with("no such ") && m.contains(" constant ") {format!("nosuch.{}", realm_of(m))}
-	else if m.starts_with("duplicate constant ") {"constdir.duplicate".to_owned()}
-	else if m.starts_with("duplicate ") {format!("duplicate.{}", realm_of(m))}
-	else if m.starts_with("declared ") {format!("global.deferred.{}", realm_of(m))}
-	else if m.starts_with("label out of range") {format!("const.range.{}", paren_nums(m).join("."))}
-	else if m.starts_with("misaligned label") {format!("const.alignment.{}", paren_nums(m).join("."))}
-	else if m.contains(" not supported for ") {"eval.badtype".to_owned()}
-	else if m.starts_with("arithmetic overflow") {format!("eval.overflow.{}", overflow_kind(parts.get(1).unwrap_or(&"")))}
-	else if m.starts_with("address out of range") {"addr.range".to_owned()}
-	else if m.starts_with("could not change active section") {format!("addr.segment.{}", seg_kind(&parts[1..]))}
-	else if m.starts_with("no active segment to align") {"align.inactive".to_owned()}
-	else if m.starts_with("alignment out of range") {format!("align.range.{}", paren_nums(m).join("."))}
-	else if m.starts_with("could not write alignment bytes") {format!("align.write.{}", seg_kind(&parts[1..]))}
-	else if m.starts_with("no active segment to write to") {"data.inactive".to_owned()}
-	else if m.starts_with("constant out of range") {let n = paren_nums(m); format!("data.range.{}", n[1..].join("."))}
-	else if m.starts_with("invalid hex char") {format!("data.hexchar.{}", m.rsplit(' ').next().unwrap_or(""))}
-	else if m.starts_with("unexpected eof in hex string") {"data.hexeof".to_owned()}
-	else if m.starts_with("could not access referenced file") {"data.file".to_owned()}
-	else if m.starts_with("could not write data to segment") {format!("data.write.{}", seg_kind(&parts[1..]))}
-	else if m.starts_with("could not read file") {"include.fileread".to_owned()}
-	else if m.starts_with("assembly of ") {"include.failed".to_owned()}
-	else if m.starts_with("argument #") && m.ends_with("is out of range") {format!("asm.valuerange.{}", hash_num(m))}
-	else if m.starts_with("argument #") && m.contains("has invalid register") {format!("asm.nosuchreg.{}", hash_num(m))}
-	else if m.starts_with("could not encode instruction")
-	{
-		if parts.get(1).is_some_and(|p| p.contains("cannot be represented")) {"asm.encode.unrep".to_owned()} else {"asm.encode.overflow".to_owned()}
-	}
-	else if m.starts_with("could not write instruction to segment") {format!("asm.write.{}", seg_kind(&parts[1..]))}
-	else {format!("?{m}")}
-}
-
-fn lex_kind(m: &str) -> String
-{
-	if m.starts_with("malformed UTF-8") {"bu".to_owned()}
-	else if m.starts_with("unclosed block comment") {"bc".to_owned()}
-	else if m.starts_with("malformed number") {"bn".to_owned()}
-	else if m.starts_with("malformed character") {"bh".to_owned()}
-	else if m.starts_with("malformed string") {"bs".to_owned()}
-	else if let Some(rest) = m.strip_prefix("unexpected character ")
-	{
-		// `{c:?}`: 'x', '\n', '\'', '\\', '\u{7f}'
-		// the source is a `Positioned<TokenErrorKind>`: "… 'x' (line:col)"
-		let rest = rest.rfind(" (").map(|i| &rest[..i]).unwrap_or(rest);
-		let body = rest.trim().strip_prefix('\'').unwrap_or(rest);
-		let body = body.strip_suffix('\'').unwrap_or(body);
-		let c = if let Some(h) = body.strip_prefix("\\u{") {u32::from_str_radix(h.trim_end_matches('}'), 16).unwrap_or(0)}
-			else if let Some(e) = body.strip_prefix('\\')
-			{
-				match e {"n" => 10, "r" => 13, "t" => 9, "0" => 0, "'" => 39, "\"" => 34, "\\" => 92, _ => 0}
-			}
-			else {body.chars().next().map(|c| c as u32).unwrap_or(0)};
-		format!("ux{c}")
-	}
-	else {format!("?{m}")}
-}
-
-/// the kind of a diagnostic from its rendered message chain `top <- source <- …` (same kinds as `Driver/Asm.lean`)
-fn diag_kind(msg: &str) -> String
-{
-	let parts: Vec<&str> = msg.split(" <- ").collect();
-	let m = parts[0];
-	let quoted_dir = |m: &str| -> String
-	{
-		let a = m.find("\".").map(|i| i + 2).unwrap_or(0);
-		let b = m[a..].find('"').map(|i| i + a).unwrap_or(m.len());
-		m[a..b].to_owned()
-	};
-	if m == "parsing failed"
-	{
-		match parts.get(1)
-		{
-			Some(&"input token error") => format!("parse.tok.{}", lex_kind(parts.get(2).unwrap_or(&""))),
-			Some(p) if p.starts_with("expected ") =>
-			{
-				let rest = &p["expected ".len()..];
-				let (e, h) = rest.split_once(", got ").unwrap_or((rest, ""));
-				format!("parse.exp.{}.{}", hex(e.as_bytes()), hex(h.as_bytes()))
-			},
-			_ => "parse.?".to_owned(),
-		}
-	}
-	else if m == "no active segment" {"inactive".to_owned()}
-	else if m.starts_with("no such directive") {"dir.notfound".to_owned()}
-	else if m.starts_with("too many arguments for \".") {format!("dir.toomany.{}.{}", quoted_dir(m), paren_nums(m).join("."))}
-	else if m.starts_with("not enough arguments for\".") {format!("dir.notenough.{}.{}", quoted_dir(m), paren_nums(m).join("."))}
-	else if m.starts_with("invalid argument #") && m.contains(" to \".")
-	{
-		let inside = &m[m.rfind('(').map(|i| i + 1).unwrap_or(0)..m.len() - 1];
-		let (e, h) = inside.split_once(", got ").unwrap_or((inside, ""));
-		format!("dir.argtype.{}.{}.{}.{}", quoted_dir(m), hash_num(m), ty_name(e.trim_start_matches("expect ")), ty_name(h))
-	}
-	else if let Some(d) = m.strip_prefix("failed to apply .") {format!("dir.apply.{}.{}", d, inner_kind(&parts[1..]))}
-	else if m.starts_with("no such instruction") {"instr.notfound".to_owned()}
-	else if m.starts_with("too many arguments for ") {format!("instr.toomany.{}", paren_nums(m).join("."))}
-	else if m.starts_with("not enough arguments for ") {format!("instr.notenough.{}", paren_nums(m).join("."))}
-	else if m.starts_with("invalid argument #")
-	{
-		let inside = &m[m.rfind('(').map(|i| i + 1).unwrap_or(0)..m.len() - 1];
-		let (e, h) = if inside.contains("; got ") {inside.split_once("; got ").unwrap()} else {inside.split_once(", got ").unwrap_or((inside, ""))};
-		let e = e.trim_start_matches("expect one of {").trim_start_matches("expect ").trim_end_matches('}');
-		let es: Vec<String> = e.split(", ").map(ty_name).collect();
-		format!("instr.argtype.{}.{}.{}", hash_num(m), es.join("+"), ty_name(h))
-	}
-	else if m == "instruction assembly failed" {format!("instr.asm.{}", inner_kind(&parts[1..]))}
-	else {format!("label.{}", inner_kind(&parts))}
-}
-
 fn canon_real(o: &Outcome, dir: &std::path::Path) -> String
 {
 	let prefix = format!("{}/", dir.display());
 	let success = o.close_err.is_none() && o.finalize;
-	let close = match &o.close_err
-	{
-		None => "-".to_owned(),
-		Some(c) => {let parts: Vec<&str> = c.split(" <- ").collect(); seg_kind(&parts)},
-	};
-	let diags: Vec<String> = o.errors.iter().map(|(f, l, c, m)|
+	let close = o.close_err.clone().unwrap_or_else(|| "-".to_owned());
+	let diags: Vec<String> = o.errors.iter().map(|(f, l, c, k)|
 	{
 		let rel = f.strip_prefix(&prefix).unwrap_or(f);
-		format!("{}:{l}:{c}:{}", hex(rel.as_bytes()), diag_kind(m))
+		format!("{}:{l}:{c}:{k}", hex(rel.as_bytes()))
 	}).collect();
 	format!("{} a={} c={} f={} | {} | {}", if success {"ok"} else {"fail"}, o.assemble_ok as u8, close, o.finalize as u8,
 		if diags.is_empty() {"-".to_owned()} else {diags.join(",")}, image_str(&o.image))
@@ -1342,7 +1156,7 @@ fn check_asm_model(cx: &mut Cx, project: &Project, dir: &std::path::Path)
 		Ok(o) =>
 		{
 			if o.image.len() > MODEL_MAX_IMAGE {cx.report.hit("asm model: skipped (image > 64 KiB)"); return;}
-			if o.errors.iter().any(|e| e.3.contains("could not read file")) {cx.report.hit("asm model: skipped (unreadable file)"); return;}
+			if o.errors.iter().any(|e| e.3.contains("include.fileread")) {cx.report.hit("asm model: skipped (unreadable file)"); return;}
 			canon_real(&o, dir)
 		},
 	};
@@ -1535,8 +1349,284 @@ const CORPUS: &[(&str, &[u8])] = &[
 	("misc", b".addr 0; .global a; .du8 (a + -9223372036854775807) + -9223372036854775807; .const a, 1;"),
 ];
 
+/// Constructs whose diagnostic path no generated program reached (found with tools/coverage.sh). Each entry is a whole
+/// main file in which the offending statement starts at (line, col); the FIRST diagnostic must carry exactly that
+/// position in main.asm and its KIND (errkind::diag_kind: structure of the error value, not its wording) must contain the fragment.
+const POSITIONED: &[(&str, &str, u32, u32, &str)] = &[
+	// Evaluation::Deferred in the strict directives: the operand is declared (.global) but has no value yet
+	("deferred-operand", ".global g9;\n  .addr g9;", 2, 3, "dir.apply.addr.nosuch.local"),
+	("deferred-operand", ".addr 0x100;\n.global g9;\n\t.align g9;", 3, 2, "dir.apply.align.nosuch.local"),
+	("deferred-operand", ".global g9;\n.const c9, g9;", 2, 1, "dir.apply.const.nosuch.local"),
+	("deferred-operand", ".addr 0x100;\n.global g9;\n.const c9, (g9 + 1) * 2;\n.const g9, 1;", 3, 1, "dir.apply.const.nosuch.local"),
+	("deferred-operand", ".addr 0x100;\n.global g9; .addr g9 | 0x200;\n.const g9, 1;", 2, 13, "dir.apply.addr.nosuch.local"),
+	("deferred-operand", ".addr 0x100;\n.global g9; .global h9; .align h9 + g9;\n", 2, 25, "dir.apply.align.nosuch.local"),
+	// TooManyArguments of every directive
+	("arity-many", ".addr 0x100; .align 1, 2;", 1, 14, "dir.toomany.align.1.2"),
+	("arity-many", ".addr 0x100;\n.const a9, 1, 2;", 2, 1, "dir.toomany.const.2.3"),
+	("arity-many", ".global a9, b9;", 1, 1, "dir.toomany.global.1.2"),
+	("arity-many", ".import a9, b9;", 1, 1, "dir.toomany.import.1.2"),
+	("arity-many", ".export a9, b9, c9;", 1, 1, "dir.toomany.export.1.3"),
+	("arity-many", "\n\n .include \"a.asm\", \"b.asm\";", 3, 2, "dir.toomany.include.1.2"),
+	("arity-many", ".addr 0x100; .dstr \"a\", \"b\";", 1, 14, "dir.toomany.dstr.1.2"),
+	("arity-many", ".addr 0x100; .dhex \"00\", \"11\";", 1, 14, "dir.toomany.dhex.1.2"),
+	("arity-many", ".addr 0x100; .dfile \"main.asm\", \"main.asm\";", 1, 14, "dir.toomany.dfile.1.2"),
+	("arity-many", ".addr 0x100, 0x200;", 1, 1, "dir.toomany.addr.1.2"),
+	("arity-many", ".addr 0x100; .du16 1, 2;", 1, 14, "dir.toomany.du16.1.2"),
+	("arity-many", ".addr 0x100; .du32 1, 2, 3;", 1, 14, "dir.toomany.du32.1.3"),
+	// wrong argument type after evaluation
+	("kind-evaluated", ".addr 0x100; .align \"s\";", 1, 14, "dir.argtype.align.0.constant.string"),
+	("kind-evaluated", ".addr 0x100; .align R0;", 1, 14, "dir.argtype.align.0.constant.identifier"),
+	("kind-evaluated", ".addr 0x100; .align {4};", 1, 14, "dir.argtype.align.0.constant.sequence"),
+	("kind-evaluated", ".addr 0x100; .align [4];", 1, 14, "dir.argtype.align.0.constant.address"),
+	("kind-evaluated", ".const c9, \"s\";", 1, 1, "dir.argtype.const.1.constant.string"),
+	("kind-evaluated", ".const c9, sp;", 1, 1, "dir.argtype.const.1.constant.identifier"),
+	("kind-evaluated", ".const c9, f9(1);", 1, 1, "dir.argtype.const.1.constant.function_call"),
+	("kind-evaluated", ".const c9, R1 + 1;", 1, 1, "dir.argtype.const.1.constant.addition"),
+	// operand kinds the operators reject (simplify_raw: lhs, rhs, address, negate, not)
+	("kind-operator", ".addr 0x100; .du8 [[R0]];", 1, 14, "eval.badtype"),
+	("kind-operator", ".addr 0x100; .du8 [\"s\"];", 1, 14, "eval.badtype"),
+	("kind-operator", ".addr 0x100; .du8 [{1}];", 1, 14, "eval.badtype"),
+	("kind-operator", ".addr 0x100; .du8 1 + \"a\";", 1, 14, "eval.badtype"),
+	("kind-operator", ".addr 0x100; .du8 {1} * 2;", 1, 14, "eval.badtype"),
+	("kind-operator", ".addr 0x100; .du8 2 << [1];", 1, 14, "eval.badtype"),
+	("kind-operator", ".addr 0x100; .du8 -\"s\";", 1, 14, "eval.badtype"),
+	("kind-operator", ".addr 0x100; .du8 ![1];", 1, 14, "eval.badtype"),
+	("kind-operator", ".addr 0x100; LDR R0, [R1 + [R2]];", 1, 14, "eval.badtype"),
+	// register operands that are no registers, lists with non-names, address shapes
+	("operand", ".addr 0x100; MOVS longname9, 1;", 1, 14, "instr.asm.asm.nosuchreg."),
+	("operand", ".addr 0x100; MOVS R0, R1R1R;", 1, 14, "nosuch"),
+	("operand", ".addr 0x100; ADCS R0, R1234;", 1, 14, "instr.asm.asm.nosuchreg."),
+	("operand", ".addr 0x100; PUSH {R0, longname9};", 1, 14, "instr.asm.asm.nosuchreg."),
+	("operand", ".addr 0x100; PUSH {1};", 1, 14, "instr.argtype.0.identifier.constant"),
+	("operand", ".addr 0x100; POP {R0, \"s\"};", 1, 14, "instr.argtype.0.identifier.string"),
+	("operand", ".addr 0x100; LDM R0, {R1, R2 + 0};", 1, 14, "instr.argtype.1.identifier.addition"),
+	("operand", ".addr 0x100; MRS R0, 5;", 1, 14, "instr.argtype.1."),
+	("operand", ".addr 0x100; MRS R0, NOSUCHSYSTEMREGISTER;", 1, 14, "instr.asm.asm.nosuchreg."),
+	("operand", ".addr 0x100; MSR toolongname, R0;", 1, 14, "instr.asm.asm.nosuchreg."),
+	("operand", ".addr 0x100; LDR R0, [R1 + R2 + R3];", 1, 14, "instr.asm.asm.valuerange."),
+	("operand", ".addr 0x100; LDR R0, [R1 + R2 + 4];", 1, 14, "instr.asm.asm.valuerange."),
+	("operand", ".addr 0x100; LDR R0, [R1 + 4 + R2];", 1, 14, "instr.asm.asm.valuerange."),
+	("operand", ".addr 0x100; STR R0, [R1 - 4];", 1, 14, "instr.asm.asm.valuerange."),
+	("operand", ".addr 0x100; LDRB R0, [R1 + 0x100000000];", 1, 14, "instr.asm.asm.valuerange."),
+	("operand", ".addr 0x100; LDR R0, [longname9];", 1, 14, "instr.asm.nosuch.local"),
+	// the region is full: immediate statements of every kind at the end of the address space and below an occupied address
+	("full", ".addr 0xFFFFFFFE; .align 7;", 1, 19, "align.write.overflow.5.2"),
+	("full", ".addr 0xFFFFFFFD; .du8 1; .align 0x10003;", 1, 27, "align.write.overflow."),
+	("full", ".addr 0x104; .du8 1; .addr 0x100; .du8 2; .align 8;", 1, 43, "align.write.overflow.7.3"),
+	("full", ".addr 0xFFFFFFFF; .du16 1;", 1, 19, "data.write.overflow.2.1"),
+	("full", ".addr 0xFFFFFFFD; .du32 fwd; .const fwd, 1;", 1, 19, "data.write.overflow.4.3"),
+	("full", ".addr 0xFFFFFFFF; .dstr \"ab\";", 1, 19, "data.write.overflow.2.1"),
+	("full", ".addr 0xFFFFFFFF; .dhex \"0102\";", 1, 19, "data.write.overflow.2.1"),
+	("full", ".addr 0xFFFFFFFF; .dfile \"main.asm\";", 1, 19, "data.write.overflow."),
+	("full", ".addr 0xFFFFFFFF; NOP;", 1, 19, "asm.write.overflow.2.1"),
+	("full", ".addr 0xFFFFFFFE; BL fwd; fwd:", 1, 19, "asm.write.overflow.4.2"),
+	("full", ".addr 0xFFFFFFFE; UDF.W 1;", 1, 19, "asm.write.overflow.4.2"),
+	("full", ".addr 0xFFFFFFFF; B fwd; fwd:", 1, 19, "asm.write.overflow.2.1"),
+	("full", ".addr 0x102; NOP; .addr 0x100; NOP; SVC fwd; .const fwd, 1;", 1, 37, "asm.write.overflow.2.0"),
+	("full", ".addr 0x102; NOP; .addr 0x100; NOP; .du8 fwd; .const fwd, 1;", 1, 37, "data.write.overflow.1.0"),
+];
+
+/// multi-file scenarios: (class, files, expectation) — `Some((file, line, col, fragment))` = the first diagnostic, `None` = must assemble
+const SCENARIOS: &[(&str, &[(&str, &[u8])], Option<(&str, u32, u32, &str)>)] = &[
+	// a Fatal error inside a task that runs at finalize (the value arrives through .import after the child was assembled): the
+	// remaining global tasks are dropped, the failure is reported
+	("fatal-at-finalize", &[("main.asm", b".addr 0x100;\n.global g9;\n.include \"c.asm\";\n.const g9, 0x10000001;\n"),
+		("c.asm", b".import g9;\n B g9;\n.du8 g9;\nBL g9;\n")], Some(("c.asm", 2, 2, "const.range."))),
+	("fatal-at-finalize", &[("main.asm", b".addr 0x100;\n.global g9;\n.include \"c.asm\";\n.const g9, 256;\n"),
+		("c.asm", b".import g9;\n MOVS R0, g9;\n.du8 g9;\nADDS R1, R1, g9;\n")], Some(("c.asm", 2, 2, "asm.encode."))),
+	("fatal-at-finalize", &[("main.asm", b".addr 0x100;\n.global g9;\n.include \"c.asm\";\n.include \"c.asm\";\n.const g9, 3;\n"),
+		("c.asm", b".import g9;\nLDR R0, [R1 + g9];\nADD SP, SP, g9;\nLSLS R0, R1, g9 + 29;\n")], Some(("c.asm", 2, 1, "asm.encode."))),
+	("fatal-at-finalize", &[("main.asm", b".addr 0x100;\n.global g9;\n.include \"c.asm\";\n.const g9, 0x40000;\n"),
+		("c.asm", b".import g9;\nNOP; BEQ g9;\nBNE g9;\n")], Some(("c.asm", 2, 6, "const.range."))),
+	("fatal-at-finalize", &[("main.asm", b".addr 0x100;\n.global g9;\n.include \"c.asm\";\n.const g9, 0x103;\n"),
+		("c.asm", b".import g9;\nLDR R0, g9;\nADR R1, g9;\n")], Some(("c.asm", 2, 1, ""))),
+	// the same values in range: the tasks at finalize complete
+	("value-at-finalize", &[("main.asm", b".addr 0x100;\n.global g9;\n.include \"c.asm\";\n.const g9, 0x120;\n"),
+		("c.asm", b".import g9;\nB g9;\n.du16 g9;\nBL g9;\nLDR R0, g9;\nADR R1, g9;\n")], None),
+	// trivial (non-fatal) errors at finalize: every task still runs, each reports
+	("trivial-at-finalize", &[("main.asm", b".addr 0x100;\n.global g9;\n.include \"c.asm\";\n.const g9, 0x1000;\n"),
+		("c.asm", b".import g9;\n.du8 g9;\nSVC g9;\n.du8 g9 - 0x1000;\n")], Some(("c.asm", 2, 1, "data.range."))),
+	// `.include` / `.dfile` of something that exists but is not a readable file (a directory)
+	("unreadable", &[("main.asm", b".addr 0x100;\n  .include \"sub\";\n"), ("sub/x.bin", b"x")], Some(("main.asm", 2, 3, "dir.apply.include."))),
+	("unreadable", &[("main.asm", b".addr 0x100;\n.include \"sub/\";\n"), ("sub/x.bin", b"x")], Some(("main.asm", 2, 1, "dir.apply.include."))),
+	("unreadable", &[("main.asm", b".addr 0x100;\n.include \".\";\n")], Some(("main.asm", 2, 1, "dir.apply.include."))),
+	("unreadable", &[("main.asm", b".addr 0x100;\n.du8 1; .dfile \"sub\";\n"), ("sub/x.bin", b"x")], Some(("main.asm", 2, 9, "dir.apply.dfile."))),
+	("unreadable", &[("main.asm", b".addr 0x100;\n.include \"sub/x.bin/y.asm\";\n"), ("sub/x.bin", b"x")], Some(("main.asm", 2, 1, "dir.apply.include.include.nosuchfile"))),
+	// diagnostics of an included file carry ITS name and position; the includer reports the failed include at its own statement
+	("in-child", &[("main.asm", b".addr 0x100;\n.include \"c.asm\";\n"), ("c.asm", b"NOP;\n  .align 1, 2;\n")], Some(("c.asm", 2, 3, "dir.toomany.align."))),
+	("in-child", &[("main.asm", b".addr 0x100;\n.include \"c.asm\";\n"), ("c.asm", b".global g9;\n.align g9;\n")], Some(("c.asm", 2, 1, "dir.apply.align.nosuch.local"))),
+	("in-child", &[("main.asm", b".addr 0xFFFFFFFE;\n.include \"c.asm\";\n"), ("c.asm", b"NOP;\n.du8 1;\n")], Some(("c.asm", 2, 1, "data.write."))),
+	("in-child", &[("main.asm", b".addr 0xFFFFFFFE;\n.include \"d/c.asm\";\n"), ("d/c.asm", b".include \"e.asm\";\n"), ("d/e.asm", b"NOP;\n NOP;\n")], Some(("d/e.asm", 2, 2, "asm.write."))),
+];
+
 #[derive(Clone, Debug, PartialEq)]
 enum Expect {Any, MustFail}
+
+/// `check_c06` plus the position oracle: the first recorded diagnostic is at (file, line, col) and mentions `fragment`
+fn check_c06_at(cx: &mut Cx, project: &Project, class: &str, dir: &std::path::Path, want: Option<(&str, u32, u32, &str)>)
+{
+	check_c06(cx, project, if want.is_some() {Expect::MustFail} else {Expect::Any}, class, dir);
+	project.write(dir);
+	let Ok(o) = run_real(dir) else {return};   // the panic was reported by check_c06
+	let input = project.to_input();
+	match want
+	{
+		None =>
+		{
+			if !(o.assemble_ok && o.close_err.is_none() && o.finalize && o.errors.is_empty())
+			{
+				cx.report.oracle_fail(input, format!("{class}: a valid program was not assembled cleanly: {:?}", o.errors.iter().take(3).collect::<Vec<_>>()));
+			}
+		},
+		Some((file, line, col, fragment)) =>
+		{
+			let prefix = format!("{}/", dir.display());
+			match o.errors.first()
+			{
+				None => cx.report.oracle_fail(input, format!("{class}: no diagnostic recorded (expected one at {file}:{line}:{col})")),
+				Some((f, l, c, m)) =>
+				{
+					let rel = f.strip_prefix(&prefix).unwrap_or(f);
+					if rel != file || *l != line || *c != col
+					{
+						cx.report.oracle_fail(input, format!("{class}: the first diagnostic is at {rel}:{l}:{c}, the offending statement at {file}:{line}:{col} ({m})"));
+					}
+					else if !m.contains(fragment)
+					{
+						cx.report.oracle_fail(input, format!("{class}: the diagnostic at {file}:{line}:{col} is {m:?}, expected one mentioning {fragment:?}"));
+					}
+				},
+			}
+			if o.finalize && o.close_err.is_none() {cx.report.oracle_fail(project.to_input(), format!("{class}: success reported"));}
+		},
+	}
+}
+
+/// Values that arrive between `assemble` and `finalize` (an embedding declares a global before assembling and gives it its value
+/// afterwards, as `Context`'s API allows): the statements that use it are completed by the tasks `finalize` runs. A value no
+/// encoding exists for is a Fatal error inside such a task: `finalize` must report failure, the diagnostic must be recorded at the
+/// statement, nothing may panic, and the bytes of the other statements stay what they were.
+fn finalize_with_late_values(cx: &mut Cx, dir: &std::path::Path)
+{
+	use trion::asm::constant::Realm;
+	// (name of the case, value given after assembly, expected success, line and column of the first diagnostic if any)
+	for (class, value, ok, at) in [("late-ok", 7i64, true, None), ("late-fatal", 256, false, Some((3u32, 2u32))), ("late-trivial", -1, false, Some((3, 2)))]
+	{
+		let text = ".addr 0x100;\n.import g9;\n MOVS R0, g9;\n.du8 5;\nMOVS R1, g9;\n.du16 g9 & 0xFF;\n";
+		let input = format!("late-value {class}");
+		let p = Project::single(text.as_bytes());
+		p.write(dir);
+		let path = dir.join("main.asm");
+		let r = guarded(||
+		{
+			let directives = DirectiveList::generate();
+			let mut ctx = Context::new(&Arm6M, &directives);
+			ctx.defer_constant("g9", Realm::Global).unwrap();
+			let (res, _) = ctx.assemble(text.as_bytes(), path.clone());
+			let closed = ctx.close_segment().is_ok();
+			let pending_errors = ctx.get_errors().len();
+			let fresh = ctx.insert_constant("g9", value, Realm::Global);
+			let fin = ctx.finalize();
+			let errs: Vec<(u32, u32, String)> = ctx.get_errors().iter().map(|e| (e.line, e.col, crate::errkind::diag_kind(&e.value))).collect();
+			let mut image = BTreeMap::new();
+			for (range, seg) in ctx.output().iter() {for (i, b) in seg.iter().enumerate() {image.insert(range.get_first().wrapping_add(i as u32), *b);}}
+			(res.is_ok(), closed, pending_errors, fresh.is_ok(), fin, errs, image)
+		});
+		cx.report.case(Some(&input));
+		cx.report.hit(&format!("value given between assemble and finalize: {class}"));
+		match r
+		{
+			Err(p) => cx.report.oracle_fail(input, format!("panic: {p}")),
+			Ok((asm_ok, closed, pending, inserted, fin, errs, image)) =>
+			{
+				if !(asm_ok && closed && pending == 0 && inserted) {cx.report.oracle_fail(input.clone(), format!("the program with a declared global did not assemble: assemble {asm_ok}, close {closed}, {pending} diagnostics, insert {inserted}"));}
+				if fin != ok {cx.report.oracle_fail(input.clone(), format!("finalize() returned {fin}, expected {ok}; diagnostics {errs:?}"));}
+				if fin && !errs.is_empty() {cx.report.oracle_fail(input.clone(), format!("finalize() reports success with diagnostics recorded: {errs:?}"));}
+				match (at, errs.first())
+				{
+					(None, None) => (),
+					(Some((l, c)), Some((el, ec, _))) if l == *el && c == *ec => (),
+					(want, got) => cx.report.oracle_fail(input.clone(), format!("first diagnostic {got:?}, expected at {want:?}")),
+				}
+				// the statement with a known value keeps its byte whatever happens to the others; on success every statement has its final bytes
+				if image.get(&0x102) != Some(&5) {cx.report.oracle_fail(input.clone(), format!("the byte of `.du8 5` at 0x102 is {:?}", image.get(&0x102)));}
+				if ok
+				{
+					let want: Vec<u8> = vec![0x07, 0x20, 0x05, 0x07, 0x21, 0x07, 0x00];
+					let got: Vec<u8> = (0x100u32..0x107).filter_map(|a| image.get(&a).copied()).collect();
+					if got != want {cx.report.oracle_fail(input.clone(), format!("image {} after finalize, expected {}", hex(&got), hex(&want)));}
+				}
+			},
+		}
+	}
+}
+
+/// `.include` applied through `DirectiveList::process` on a fresh `Context` (no current file: the path is taken as it is
+/// when absolute): must behave as the same include written in a main file — same image, same success
+fn include_without_current_file(cx: &mut Cx, dir: &std::path::Path)
+{
+	use trion::text::parse::{ElementValue, Parser};
+	use trion::text::Positioned;
+	let child: &[u8] = b".addr 0x200;\nx: .du32 x;\nNOP;\n";
+	for (class, body, ok) in [("ok", child, true), ("failing", &b".addr 0x200;\n.du8 256;\n"[..], false), ("missing", &b""[..], false)]
+	{
+		let p = Project{files: if class == "missing" {vec![("main.asm".to_owned(), Vec::new())]} else {vec![("main.asm".to_owned(), Vec::new()), ("c.asm".to_owned(), body.to_vec())]}};
+		p.write(dir);
+		let abs = dir.join("c.asm");
+		let text = format!(".include \"{}\";", abs.display());
+		let input = format!("include-direct {class}");
+		let r = guarded(||
+		{
+			let directives = DirectiveList::generate();
+			let mut ctx = Context::new(&Arm6M, &directives);
+			let mut results = Vec::new();
+			for el in Parser::new(text.as_bytes())
+			{
+				let el = el.expect("harness text parses");
+				let (line, col) = (el.line, el.col);
+				if let ElementValue::Directive{name, args} = el.value
+				{
+					let list = ctx.get_directives();
+					results.push(list.process(&mut ctx, Positioned{line, col, value: (name.as_ref(), args)}).is_ok());
+				}
+			}
+			let closed = ctx.close_segment().is_ok();
+			let fin = ctx.finalize();
+			let mut image = BTreeMap::new();
+			for (range, seg) in ctx.output().iter() {for (i, b) in seg.iter().enumerate() {image.insert(range.get_first().wrapping_add(i as u32), *b);}}
+			let errs: Vec<(String, u32, u32)> = ctx.get_errors().iter().map(|e| (e.name.as_ref().clone(), e.line, e.col)).collect();
+			(results, closed, fin, image, errs, ctx.has_curr_file())
+		});
+		cx.report.case(Some(&format!("include-direct {class}")));
+		cx.report.hit(&format!("include without a current file: {class}"));
+		match r
+		{
+			Err(p) => cx.report.oracle_fail(input, format!("panic: {p}")),
+			Ok((results, closed, fin, image, errs, has_file)) =>
+			{
+				if has_file {cx.report.oracle_fail(input.clone(), "a current file remains after the include returned");}
+				if results != vec![ok] || !closed || fin != ok
+				{
+					cx.report.oracle_fail(input.clone(), format!("process = {results:?}, close = {closed}, finalize = {fin}; expected process = [{ok}], finalize = {ok}"));
+				}
+				if ok
+				{
+					// the same file as a main file
+					std::fs::write(dir.join("main.asm"), body).unwrap();
+					match run_real(dir)
+					{
+						Ok(o) => if o.image != image {cx.report.oracle_fail(input.clone(), format!("image {} differs from the image of the same file assembled as main file {}", image_str(&image), image_str(&o.image)));},
+						Err(p) => cx.report.oracle_fail(input.clone(), format!("panic: {p}")),
+					}
+				}
+				else if errs.is_empty() || errs.iter().any(|(f, l, c)| f.is_empty() || *l < 1 || *c < 1)
+				{
+					cx.report.oracle_fail(input.clone(), format!("failure without properly positioned diagnostics: {errs:?}"));
+				}
+			},
+		}
+	}
+}
 
 fn check_c06(cx: &mut Cx, project: &Project, expect: Expect, class: &str, dir: &std::path::Path)
 {
@@ -1555,7 +1645,7 @@ fn check_c06(cx: &mut Cx, project: &Project, expect: Expect, class: &str, dir: &
 			let success = o.close_err.is_none() && o.finalize;
 			let outcome = if success {"success".to_owned()} else
 			{
-				format!("fail:{}", o.errors.first().map(|e| e.3.split(" <- ").last().unwrap_or("").chars().take(40).collect::<String>()).unwrap_or_else(|| o.close_err.clone().unwrap_or_default()))
+				format!("fail:{}", o.errors.first().map(|e| e.3.chars().take(60).collect::<String>()).unwrap_or_else(|| o.close_err.clone().unwrap_or_default()))
 			};
 			cx.report.case(Some(&outcome));
 			cx.report.hit(&format!("{class}: {}", if success {"success"} else {"diagnosed"}));
@@ -1645,7 +1735,7 @@ fn self_include(cx: &mut Cx, dir: &std::path::Path, cycle: usize)
 			{
 				cx.report.hit("selfinclude: exited");
 				let err = String::from_utf8_lossy(&o.stderr);
-				if !err.contains("Error") && !err.contains("error")
+				if err.trim().is_empty()
 				{
 					cx.report.oracle_fail(format!("selfinclude {cycle}"), format!("trias on a cyclic include ended with status {:?} without a diagnostic", o.status.code()));
 				}
@@ -1665,6 +1755,16 @@ pub fn run(id: &str, cx: &mut Cx)
 		if let Some(rest) = input.strip_prefix("selfinclude")
 		{
 			self_include(cx, &dir, rest.trim().parse().unwrap_or(1));
+			return;
+		}
+		if input.starts_with("include-direct")
+		{
+			include_without_current_file(cx, &dir);
+			return;
+		}
+		if input.starts_with("late-value")
+		{
+			finalize_with_late_values(cx, &dir);
 			return;
 		}
 		if let Some((abs, proj)) = input.strip_prefix("layout ").and_then(|r| r.split_once(" | "))
@@ -1782,6 +1882,22 @@ oracle = no panic; success xor (diagnostic with file/line/col or close error); i
 			{
 				check_c06(cx, &Project::single(text.as_bytes()), Expect::MustFail, "write-before-addr", &dir);
 			}
+			// constructs with a known position and message; multi-file scenarios; `.include` without a current file
+			for (class, text, line, col, fragment) in POSITIONED
+			{
+				check_c06_at(cx, &Project::single(text.as_bytes()), class, &dir, Some(("main.asm", *line, *col, fragment)));
+				// the same statement behind a preamble of other lines and characters: the position moves with it
+				let shifted = format!("// \u{e9}\u{20ac}\n/* c\n */\t{text}");
+				let (l2, c2) = if *line == 1 {(3, *col + 4)} else {(*line + 2, *col)};
+				check_c06_at(cx, &Project::single(shifted.as_bytes()), class, &dir, Some(("main.asm", l2, c2, fragment)));
+			}
+			for (class, files, want) in SCENARIOS
+			{
+				let p = Project{files: files.iter().map(|(n, d)| (n.to_string(), d.to_vec())).collect()};
+				check_c06_at(cx, &p, class, &dir, *want);
+			}
+			include_without_current_file(cx, &dir);
+			finalize_with_late_values(cx, &dir);
 			let n = if cx.thorough() {120_000} else {8_000};
 			let mut made = 0;
 			while made < n
